@@ -486,7 +486,76 @@ class Histories(Contract):
                             reg.clear()
                             reg.update(saved)
         res += self._getters_follow_the_registry()
+        res += self._registration_wrappers()
         return res
+
+    def _registration_wrappers(self):
+        """The public registration entry points (`register_megacomplex`, `register_data_io`, `register_project_io`) behave
+        like the registry operations they wrap, for the histories the property names - the same class registered under a
+        second name, the same class registered twice under one name, a different class under a taken name: every name given
+        resolves, the first registration wins, a conflict warns (bounded histories on the real registries, restored afterwards)."""
+        import warnings as _w
+
+        from glotaran.plugin_system import base_registry, data_io_registration, megacomplex_registration, project_io_registration
+        from glotaran.plugin_system.base_registry import PluginOverwriteWarning
+
+        holder = getattr(base_registry, [n for n in dir(base_registry) if n.endswith("PluginRegistry")][0])
+        out = []
+
+        class WA:
+            def __init__(self, name="wa"):
+                self.format = name
+
+        class WB(WA):
+            pass
+
+        def run(regname, register, lookup):
+            reg = getattr(holder, regname)
+            saved = dict(reg)
+            bad = None
+            try:
+                def reg_call(name, cls):
+                    with _w.catch_warnings(record=True) as rec:
+                        _w.simplefilter("always")
+                        register(name, cls)
+                    return [r for r in rec if issubclass(r.category, PluginOverwriteWarning)]
+
+                def holds(name, cls):
+                    try:
+                        got = lookup(name)
+                    except ValueError:
+                        return False
+                    return got is cls or isinstance(got, cls) and type(got) is cls
+
+                w1 = reg_call("pyvcwa", WA)
+                w2 = reg_call("pyvcwb", WA)  # the same class under a second, free name
+                w3 = reg_call("pyvcwa", WA)  # the same class again under its own name
+                w4 = reg_call("pyvcwa", WB)  # another class under the taken name
+                w5 = reg_call("pyvcwb", WB)
+                checks = [
+                    ("first registration resolves", holds("pyvcwa", WA) and not w1),
+                    ("second name of the same class resolves", holds("pyvcwb", WA) and not w2),
+                    ("re-registration of the same class under its name changes nothing and does not warn", not w3),
+                    ("another class under a taken name warns and does not replace the holder", bool(w4) and bool(w5) and holds("pyvcwa", WA) and holds("pyvcwb", WA)),
+                    ("both classes stay reachable under their full names", any(k.endswith("WA") or k.endswith("WA_pyvcwa") for k in reg) and any(k.endswith("WB") or k.endswith("WB_pyvcwa") for k in reg)),
+                ]
+                bad = [n for n, ok in checks if not ok]
+            except Exception as e:
+                bad = [f"{type(e).__name__}: {e}"]
+            finally:
+                reg.clear()
+                reg.update(saved)
+            return bad
+
+        specs = (
+            ("megacomplex", lambda n, c: megacomplex_registration.register_megacomplex(n, c), megacomplex_registration.get_megacomplex),
+            ("data_io", lambda n, c: data_io_registration.register_data_io(n)(c), data_io_registration.get_data_io),
+            ("project_io", lambda n, c: project_io_registration.register_project_io(n)(c), project_io_registration.get_project_io),
+        )
+        for regname, register, lookup in specs:
+            bad = run(regname, register, lookup)
+            out.append({"name": f"registration_entry_point_behaves_like_the_registry_operation[{regname}]", "ok": not bad, "detail": f"failed: {bad}" if bad else "5 registrations, 5 checks", "witness": {"history": "register WA as a; WA as b; WA as a; WB as a; WB as b", "failed": bad} if bad else None, "function": f"glotaran.plugin_system.{regname}_registration", "strength": "B"})
+        return out
 
     def _getters_follow_the_registry(self):
         """Every public lookup helper of the three registration modules (`get_*` taking a format / type name) answers
